@@ -173,3 +173,30 @@ def rule_headset(F, rep):
     rep.check(fields[:1] == ["id"] and bool(ords), "LocatedAddress|ord-by-id-first", "K10 type fact",
               "LocatedAddress derives Ord with the global `id` first: %s" % fields,
               "LocatedAddress ordering is not derived/id-first (fields %s)" % fields)
+
+
+def rule_locate(F, rep):
+    """Transaction::locate says 'not present' only after searching the committed graph *and* every tip of the
+    transaction: a command that is in the graph but reported absent is ingested a second time (duplicate
+    application, spurious extra head)."""
+    f = F.fn(TX + "Transaction::locate")
+    gl = [c for c in f.calls if c.trait and c.trait.endswith("storage::Storage") and c.name == "get_location"]
+    gf = [c for c in f.calls if c.trait and c.trait.endswith("storage::Storage") and c.name == "get_location_from"]
+    nx = [c for c in f.calls if c.is_("Iterator::next") and "field:heads" in f.origins(c.args[0], through_calls="*")]
+    nones = [s for s in f.stmts() if s.rv_kind() == "agg" and s.rv[1].get("variant") == "None" and not s.place.proj]
+    rets_none = []
+    for s in pat.ok_returns(f):
+        for o in s.operands():
+            if o.place is not None and any(k == "stmt" and d in nones for k, d in f.backward_sources(o.place.local, through_calls=())[1]):
+                rets_none.append(s)
+    ok = len(gl) == 1 and len(gf) >= 1 and len(nx) == 1 and bool(rets_none)
+    if ok:
+        oe = f.outcome_edges(gl[0])
+        on = f.outcome_edges(nx[0])
+        ok = "None" in oe and "None" in on and all(f.dominates(oe["None"][1], s.bb) and f.dominates(on["None"][1], s.bb) for s in rets_none)
+        ok = ok and "argname:address" in f.origins(gl[0].args[1], through_calls=()) and all("argname:address" in f.origins(c.args[2], through_calls=()) for c in gf)
+    rep.check(ok, "locate|absent-only-after-both-searches", "K2 guarded-by",
+              "Transaction::locate returns Ok(None) only where storage.get_location(address) found nothing and the loop over self.heads ran to exhaustion",
+              "Transaction::locate can report a command absent without having searched both the committed graph (Storage::get_location) and every transaction tip "
+              "(get_location_from over self.heads): tips are dropped from self.heads while their child sits in the unwritten perspective, so a committed command "
+              "can be missed and ingested twice", f.site())
